@@ -85,6 +85,24 @@ func (c *ExecCtx) evalCall(st *State, call *ast.CallExpr) []Val {
 		}
 	}
 	sig := fn.Type().(*types.Signature)
+	// generic callee: use the instantiated signature
+	if sig.TypeParams().Len() > 0 || sig.RecvTypeParams().Len() > 0 {
+		var id *ast.Ident
+		switch f := fun.(type) {
+		case *ast.Ident:
+			id = f
+		case *ast.SelectorExpr:
+			id = f.Sel
+		}
+		if id != nil {
+			if inst, ok := c.info.Instances[id]; ok {
+				if isig, ok := inst.Type.(*types.Signature); ok {
+					sig = isig
+				}
+			}
+		}
+	}
+	c.instSig = sig
 	args := c.evalArgs(st, call, sig, nil)
 	c.runBeforeCallAnchors(st, fn, call, recv, args)
 	res := c.dispatch(st, fn, recv, args, call.Pos(), call)
@@ -577,6 +595,9 @@ func (c *ExecCtx) dispatch(st *State, fn *types.Func, recv *Val, args []Val, pos
 	e := u.eng
 	key := funcKey(fn)
 	sig := fn.Type().(*types.Signature)
+	if c.instSig != nil && (sig.TypeParams().Len() > 0 || sig.RecvTypeParams().Len() > 0) {
+		sig = c.instSig
+	}
 	if recv != nil && !isInterface(recv.Ty) {
 		if _, ok := unalias(recv.Ty).Underlying().(*types.Pointer); ok {
 			c.nilCheckRecv(st, recv.T, pos, fn)
@@ -1131,6 +1152,9 @@ func (c *ExecCtx) applyContract(st *State, fs *FuncSpec, fn *types.Func, recv *V
 	var sig *types.Signature
 	if fn != nil {
 		sig = fn.Type().(*types.Signature)
+		if c.instSig != nil && (sig.TypeParams().Len() > 0 || sig.RecvTypeParams().Len() > 0) {
+			sig = c.instSig
+		}
 	}
 	binds := c.bindHeader(fs, recv, args)
 	env := &SpecEnv{c: c, fs: fs, binds: binds, fnObj: fn}
